@@ -46,6 +46,7 @@ class C20(Check):
     outside = ['directions outside the catalogue (similarity invariance is an argument, not a proof)', '3-D', 'polylines whose legs all have zero length']
     classes = {'vertical_segment': 'the segment (or a leg of the polyline) is vertical: x1 == x2'}
     budget = {'quick': 200, 'thorough': 1800}
+    engine_opts = {'sqrt_mono': True}     # implied monotonicity facts between the square roots of a path (decides nearest-end comparisons)
 
     def bounds(self, tier):
         return dict(segments='%d catalogue directions x {free query point, query point on the segment, query point at either end}' % len(DIRS),
